@@ -15,7 +15,7 @@ RULE = ('m-of-n with n in 2..4 (thorough ..5), every m, witness type legacy / p2
         'each cosigner wallet gets a random permutation of the key list and holds one private key, in its own SQLite '
         'file. One wallet funds the common address (offline provider) and creates a spend; then a drawn sequence of '
         '1..n+1 hand-offs (signer, medium in {object, dict, raw hex}), repeats allowed, with a broadcast attempt '
-        'after each. Non-trivial = m<n with >=2 hand-offs, or two different media, or a signer order different from '
+        'after each. [per-wallet anti_fee_sniping, explicit locktimes, imported == exported transaction, bulk get_keys(n) + new_key issuance on every cosigner wallet] Non-trivial = m<n with >=2 hand-offs, or two different media, or a signer order different from '
         'key order; distinct by (m, n, type, permutations, ceremony).')
 ASSUMPTIONS = ['SQLite only; offline provider of bitcoinlib_test', 'all cosigner wallets have run utxos_update() before the ceremony', 'default sort_keys=True (BIP67 ordering)',
                'BIP45 (legacy) paths carry a cosigner index: all wallets are asked for the same cosigner index']
